@@ -240,8 +240,8 @@ MANIFEST_NOTES = (
     "(whole decoder automaton runs, the three compressor loops) are listed under coverage.not_covered / assumptions in "
     "each evidence file and in DESIGN.md §4. Five genuine defects found by the checks were repaired in /repo with fix: "
     "commits and one (MinReset keeps the window) is recorded as a known finding (known_findings.txt, DESIGN.md §5). "
-    "45 seeded property-breaking changes written by sub-agents that saw only the property text are kept under seeded/; "
-    "all 45 are reported as VIOLATION by the quick-tier check of their property (seeded/MATRIX.md, DESIGN.md §9)."
+    "84 seeded property-breaking changes written by sub-agents that saw only the property text are kept under seeded/; "
+    "all 84 are reported as VIOLATION by the quick-tier check of their property (seeded/MATRIX.md, DESIGN.md §9)."
 )
 
 COMPOSITION_GAP_DEC = ("composition of the decoder's state-machine arms over a whole run, termination of the automaton, and the unbounded "
